@@ -26,6 +26,7 @@ type IntegGen struct {
 	Names          string // "simple" | "ascii"
 	ExportPct      int
 	InteractivePct int  // per task: declared interactive
+	CtxPct         int  // per world: a context (whose up commands may fail) used by some of the tasks
 	HookOutput     bool // before/after hooks print something too (it is not part of the captured output)
 	StageGen       SchedGenParams
 }
@@ -296,6 +297,22 @@ func GenTaskWorld(ch *Choices, p IntegGen) *IntegWorld {
 			plan(execID(nm, "after", i, ""), p.HookFailPct, p.HookOutput)
 		}
 	}
+	if p.CtxPct > 0 && ch.Bool(p.CtxPct, 100, "has-context") {
+		// some of the tasks run in an execution context whose start-up may fail: none of them can
+		// run then - the first one to use the context and all later ones alike
+		cs := &CtxSpec{Name: "cx", NUp: ch.Range(1, 2, "nup"), NDown: ch.Choose(2, "ndown"), NBefore: ch.Choose(2, "ncb"), NAfter: ch.Choose(2, "nca")}
+		w.Contexts = []*CtxSpec{cs}
+		if ch.Bool(1, 2, "up-fails") {
+			w.Plans[execID("ctx:cx", "up", ch.Choose(cs.NUp, "up-fails-which"), "")] = &ExecPlan{Exit: genExit(ch)}
+		}
+		n := 0
+		for _, t := range w.Tasks {
+			if n == 0 || ch.Bool(1, 2, "in-context") {
+				t.Context = "cx"
+				n++
+			}
+		}
+	}
 	return w
 }
 
@@ -345,6 +362,7 @@ func runIntegJob(c *Ctl, job *Job, idx int, res *RunResult) {
 			gen.FailProb = 35
 			gen.OutputProb = 50
 			gen.HookOutput = true
+			gen.CtxPct = 15
 			w = GenTaskWorld(c.Ch, gen)
 			// what is reported must not depend on how the output is presented
 			w.Format = []string{"raw", "prefixed", "cockpit"}[c.Ch.Weighted([]int{2, 3, 1}, "format")]
